@@ -43,9 +43,6 @@ func C02(c *Ctx) {
 	check := c.fn("R02.1", imPrefix+"checkIBTP")
 	ci := c.fn("R02.1", "internal/executor/contracts.checkIndex")
 	if check != nil && ci != nil {
-		// sites of checkIndex
-		var gsites []core.GuardSite
-		nIdx := 0
 		isBatchLike := func(v ssa.Value) bool {
 			for _, o := range append(core.Origins(v), v) {
 				if ex, ok := o.(*ssa.Extract); ok && ex.Index == 0 {
@@ -59,110 +56,220 @@ func C02(c *Ctx) {
 			}
 			return false
 		}
-		for _, call := range core.Calls(check) {
-			cl, ok := call.(*ssa.Call)
-			if !ok {
-				continue
+		// gated(f): every return of f whose error result may be nil lies behind the success edge of an index guard in
+		// f (checkIndex, a checkIndex wrapper, or a call of a helper that is itself gated) or behind the
+		// unordered-destination edge - or hands on, as its error, exactly the error of a gated helper. checkIBTP
+		// may be split into helpers per category (extract method); the obligation follows the code.
+		nIdx, nAccept := 0, 0
+		gateMemo := map[*ssa.Function]int{}
+		var gated func(f *ssa.Function, d int) bool
+		gated = func(f *ssa.Function, d int) bool {
+			switch gateMemo[f] {
+			case 1:
+				return true
+			case 2:
+				return false
 			}
-			if g := core.StaticCallee(call); g != nil && g != ci && core.PkgOf(g) == "internal/executor/contracts" {
-				// a wrapper of checkIndex: every nil return is checkIndex's own result or lies behind a bool
-				// parameter that the call site fills with the unordered-destination flag
-				if okW, batchIdx, inner := indexGuardWrapper(g, ci); okW {
-					if batchIdx < 0 || (batchIdx < len(cl.Call.Args) && isBatchLike(cl.Call.Args[batchIdx])) {
-						nIdx++
-						gsites = append(gsites, core.GuardSite{Call: cl, Conv: core.ConvErrNil, Idx: -1})
-						// argument shape of the inner checkIndex with the wrapper's parameters substituted
-						exp, cur := inner.Call.Args[0], inner.Call.Args[1]
-						okShape := false
-						field := ""
-						if bo, ok := exp.(*ssa.BinOp); ok && bo.Op == token.ADD {
-							if one, ok := core.ConstInt(bo.Y); ok && one == 1 {
-								if lk, ok := bo.X.(*ssa.Lookup); ok {
-									if f, _, ok := counterMapOf(lk.X); ok && (f == "InterchainCounter" || f == "ReceiptCounter") {
-										okShape, field = true, f
+			gateMemo[f] = 2 // recursion: not gated
+			res := f.Signature.Results()
+			if len(f.Blocks) == 0 || res.Len() == 0 || d > 3 {
+				return false
+			}
+			errIdx := res.Len() - 1
+			if !strings.HasSuffix(res.At(errIdx).Type().String(), "BxhError") {
+				return false
+			}
+			name := f.Name()
+			var gsites []core.GuardSite
+			gatedCall := map[*ssa.Call]bool{}
+			guardCall := map[*ssa.Call]bool{}
+			var emit []func()
+			idx0 := nIdx
+			for _, call := range core.Calls(f) {
+				cl, ok := call.(*ssa.Call)
+				if !ok {
+					continue
+				}
+				g := core.StaticCallee(call)
+				if g != nil && g != ci && g != f && core.PkgOf(g) == "internal/executor/contracts" {
+					// a wrapper of checkIndex: every nil return is checkIndex's own result or lies behind a bool
+					// parameter that the call site fills with the unordered-destination flag
+					if okW, batchIdx, inner := indexGuardWrapper(g, ci); okW {
+						if batchIdx < 0 || (batchIdx < len(cl.Call.Args) && isBatchLike(cl.Call.Args[batchIdx])) {
+							nIdx++
+							gsites = append(gsites, core.GuardSite{Call: cl, Conv: core.ConvErrNil, Idx: -1})
+							exp, cur := inner.Call.Args[0], inner.Call.Args[1]
+							okShape := false
+							field := ""
+							if bo, ok := exp.(*ssa.BinOp); ok && bo.Op == token.ADD {
+								if one, ok := core.ConstInt(bo.Y); ok && one == 1 {
+									if lk, ok := bo.X.(*ssa.Lookup); ok {
+										if fld, _, ok := counterMapOf(lk.X); ok && (fld == "InterchainCounter" || fld == "ReceiptCounter") {
+											okShape, field = true, fld
+										}
 									}
 								}
 							}
-						}
-						if pi := paramIndex(g, cur); pi >= 0 && pi < len(cl.Call.Args) {
-							if _, curField, _, okCur := core.FieldOf(cl.Call.Args[pi]); !okCur || curField != "Index" {
+							if pi := paramIndex(g, cur); pi >= 0 && pi < len(cl.Call.Args) {
+								if _, curField, _, okCur := core.FieldOf(cl.Call.Args[pi]); !okCur || curField != "Index" {
+									okShape = false
+								}
+							} else if _, curField, _, okCur := core.FieldOf(cur); !okCur || curField != "Index" {
 								okShape = false
 							}
-						} else if _, curField, _, okCur := core.FieldOf(cur); !okCur || curField != "Index" {
-							okShape = false
+							guardCall[cl] = true
+							kk, pp, ww := fmt.Sprintf("checkIBTP: checkIndex #%d arguments", nIdx), c.P.Pos(cl.Pos()), "expected index = "+field+"[dst] + 1, current = ibtp.Index (through "+g.Name()+")"
+							emit = append(emit, func() { r.Check(okShape, "R02.1", kk, pp, ww, "checkIndex is not called with (counter[dst]+1, ibtp.Index)") })
 						}
-						r.Check(okShape, "R02.1", fmt.Sprintf("checkIBTP: checkIndex #%d arguments", nIdx), c.P.Pos(cl.Pos()),
-							"expected index = "+field+"[dst] + 1, current = ibtp.Index (through "+g.Name()+")", "checkIndex is not called with (counter[dst]+1, ibtp.Index)")
+						continue
+					}
+					// a helper that is itself gated (its error result is the last one)
+					if g.Signature.Recv() != nil && strings.Contains(core.FnName(g), "InterchainManager") && gated(g, d+1) {
+						gi := g.Signature.Results().Len() - 1
+						if g.Signature.Results().Len() == 1 {
+							gi = -1
+						}
+						gsites = append(gsites, core.GuardSite{Call: cl, Conv: core.ConvErrNil, Idx: gi})
+						gatedCall[cl] = true
+						guardCall[cl] = true
+					}
+					continue
+				}
+				if g != ci {
+					continue
+				}
+				nIdx++
+				gsites = append(gsites, core.GuardSite{Call: cl, Conv: core.ConvErrNil, Idx: -1})
+				exp, cur := cl.Call.Args[0], cl.Call.Args[1]
+				okShape := false
+				field := ""
+				if bo, ok := exp.(*ssa.BinOp); ok && bo.Op == token.ADD {
+					if one, ok := core.ConstInt(bo.Y); ok && one == 1 {
+						if lk, ok := bo.X.(*ssa.Lookup); ok {
+							if fld, _, ok := counterMapOf(lk.X); ok && (fld == "InterchainCounter" || fld == "ReceiptCounter") {
+								okShape = true
+								field = fld
+							}
+						}
 					}
 				}
-				continue
+				_, curField, _, okCur := core.FieldOf(cur)
+				if !okCur || curField != "Index" {
+					okShape = false
+				}
+				guardCall[cl] = true
+				kk, pp, ww := fmt.Sprintf("checkIBTP: checkIndex #%d arguments", nIdx), c.P.Pos(cl.Pos()), "expected index = "+field+"[dst] + 1, current = ibtp.Index"
+				emit = append(emit, func() { r.Check(okShape, "R02.1", kk, pp, ww, "checkIndex is not called with (counter[dst]+1, ibtp.Index)") })
 			}
-			if core.StaticCallee(call) != ci {
-				continue
-			}
-			nIdx++
-			gsites = append(gsites, core.GuardSite{Call: cl, Conv: core.ConvErrNil, Idx: -1})
-			// argument shape
-			exp, cur := cl.Call.Args[0], cl.Call.Args[1]
-			okShape := false
-			field := ""
-			if bo, ok := exp.(*ssa.BinOp); ok && bo.Op == token.ADD {
-				if one, ok := core.ConstInt(bo.Y); ok && one == 1 {
-					if lk, ok := bo.X.(*ssa.Lookup); ok {
-						if f, _, ok := counterMapOf(lk.X); ok && (f == "InterchainCounter" || f == "ReceiptCounter") {
-							okShape = true
-							field = f
-						}
-					}
+			es := core.EdgeSet{}
+			for b, m := range core.SuccessEdges(f, gsites) {
+				for i := range m {
+					es.Add(b, i)
 				}
 			}
-			_, curField, _, okCur := core.FieldOf(cur)
-			if !okCur || curField != "Index" {
-				okShape = false
-			}
-			r.Check(okShape, "R02.1", fmt.Sprintf("checkIBTP: checkIndex #%d arguments", nIdx), c.P.Pos(cl.Pos()),
-				"expected index = "+field+"[dst] + 1, current = ibtp.Index", "checkIndex is not called with (counter[dst]+1, ibtp.Index)")
-		}
-		r.Floor("R02.1", "checkIndex call sites in checkIBTP", nIdx, 2)
-		es := core.EdgeSet{}
-		for b, m := range core.SuccessEdges(check, gsites) {
-			for i := range m {
-				es.Add(b, i)
-			}
-		}
-		// unordered destination: isBatch (result 0 of checkTargetAvailability, or !srcService.Ordered) true edge
-		es.Merge(condEdges(check, func(f core.Fact, ifi *ssa.If) (bool, int) {
-			if f.Kind != core.FBool {
+			// unordered destination: isBatch (result 0 of checkTargetAvailability, or !srcService.Ordered) true edge
+			es.Merge(condEdges(f, func(fc core.Fact, ifi *ssa.If) (bool, int) {
+				if fc.Kind != core.FBool {
+					return false, 0
+				}
+				if isBatchLike(fc.Subject) {
+					return true, holdsEdge(fc)
+				}
 				return false, 0
-			}
-			isBatch := false
-			for _, o := range core.Origins(f.Subject) {
-				if ex, ok := o.(*ssa.Extract); ok && ex.Index == 0 {
-					if call, ok := ex.Tuple.(*ssa.Call); ok && strings.HasSuffix(core.CalleeName(call), "checkTargetAvailability") {
-						isBatch = true
+			}))
+			// an error variable that collects the results of several guards (one per category): where it is nil, the
+			// guard that produced it succeeded - every origin is a guard's error or a value that is never nil
+			es.Merge(condEdges(f, func(fc core.Fact, ifi *ssa.If) (bool, int) {
+				if fc.Kind != core.FNil {
+					return false, 0
+				}
+				os := core.RetOrigins(fc.Subject)
+				if len(os) < 2 {
+					return false, 0
+				}
+				nGuard := 0
+				for _, o := range os {
+					var from *ssa.Call
+					if ex, isEx := core.Strip(o.V).(*ssa.Extract); isEx {
+						from, _ = ex.Tuple.(*ssa.Call)
+					} else if cc, isC := core.Strip(o.V).(*ssa.Call); isC {
+						from = cc
+					}
+					if from != nil && guardCall[from] {
+						nGuard++
+						continue
+					}
+					if core.OriginMayBeSuccess(f, nil, o.V, core.ConvErrNil) {
+						return false, 0
 					}
 				}
-				if core.Mentions(o, fieldLoad("Service", "Ordered")) {
-					isBatch = true
+				if nGuard == 0 {
+					return false, 0
+				}
+				return true, holdsEdge(fc)
+			}))
+			cut := core.CutOf(es)
+			rs := core.Reach([]core.Point{core.EntryOf(f)}, nil, cut)
+			ok := true
+			for _, ret := range core.Returns(f) {
+				if len(ret.Results) <= errIdx || !core.MayBeSuccess(f, ret, errIdx, core.ConvErrNil) {
+					continue
+				}
+				if f == check {
+					nAccept++
+				}
+				good := !rs.Has(ret)
+				why := "reachable only across a checkIndex success edge (or the unordered-destination edge)"
+				if !good {
+					// forwarding: the error handed on is the error of a gated helper on every path that can carry a nil
+					fwd := true
+					for _, o := range core.RetOrigins(ret.Results[errIdx]) {
+						if !core.OriginMayBeSuccess(f, ret, o.V, core.ConvErrNil) {
+							continue
+						}
+						ex, isEx := core.Strip(o.V).(*ssa.Extract)
+						var from *ssa.Call
+						if isEx {
+							from, _ = ex.Tuple.(*ssa.Call)
+						} else if cc, isC := core.Strip(o.V).(*ssa.Call); isC {
+							from = cc
+						}
+						if from == nil || !gatedCall[from] || !core.OriginReachable(rs, cut, ret, o) && false {
+							if core.OriginReachable(rs, cut, ret, o) {
+								fwd = false
+							}
+						}
+					}
+					if fwd {
+						good, why = true, "hands on the error of a helper that is itself index-gated"
+					}
+				}
+				key := "checkIBTP: accepting return"
+				if f != check {
+					key = "checkIBTP/" + name + ": accepting return"
+				}
+				gg, pp, ww, bb := good, c.P.Pos(ret.Pos()), why, shortFn(f)+" can accept an IBTP without the index check: path (lines) "+rs.Witness(c.P, ret)
+				emit = append(emit, func() { r.Check(gg, "R02.1", key, pp, ww, bb) })
+				if !good {
+					ok = false
 				}
 			}
-			if isBatch {
-				return true, holdsEdge(f)
+			if ok {
+				gateMemo[f] = 1
 			}
-			return false, 0
-		}))
-		cut := core.CutOf(es)
-		rs := core.Reach([]core.Point{core.EntryOf(check)}, nil, cut)
-		n := 0
-		for _, ret := range core.Returns(check) {
-			if len(ret.Results) != 4 || !core.MayBeSuccess(check, ret, 3, core.ConvErrNil) {
-				continue
+			// a helper that turns out not to be a guard was only probed: nothing is reported for it
+			if ok || f == check {
+				for _, e := range emit {
+					e()
+				}
+			} else {
+				nIdx = idx0
 			}
-			n++
-			r.Check(!rs.Has(ret), "R02.1", "checkIBTP: accepting return", c.P.Pos(ret.Pos()), "reachable only across a checkIndex success edge (or the unordered-destination edge)",
-				"checkIBTP can accept an IBTP without the index check: path (lines) "+rs.Witness(c.P, ret))
+			return ok
 		}
-		r.Floor("R02.1", "accepting returns of checkIBTP", n, 1)
+		gated(check, 0)
+		r.Floor("R02.1", "checkIndex call sites in checkIBTP", nIdx, 2)
+		r.Floor("R02.1", "accepting returns of checkIBTP", nAccept, 1)
 		// checkIndex semantics by finite orderings
 		outs := core.OrderingReturns(ci, ci.Params[0], ci.Params[1])
 		okEq, okLt, okGt := false, true, true
